@@ -1,6 +1,7 @@
 package sim
 
 import (
+	"bytes"
 	"encoding/xml"
 	"fmt"
 	"io"
@@ -23,15 +24,17 @@ type c02Scenario struct {
 	CorruptBy byte   `json:"corrupt_byte,omitempty"`
 	SegMode   int    `json:"read_segmentation"`
 	Elements  int    `json:"elements"`
+	Framed    bool   `json:"websocket_framing,omitempty"`
 }
 
 func init() {
 	register(&PropDef{
-		ID:   "C02",
-		Rule: "scenario = (a generated well-formed XMPP stream: header + 1-40 top-level elements of every kind NextPacket dispatches on, with random attributes and descendant trees incl. registered extensions, unknown-namespace subtrees, known child names inside unknown parents, depth up to 12, descendants named like the stanza, unknown top-level elements, optional stream end) x (read segmentation: whole / random chunks / byte by byte) x (fault: none / truncation at a byte offset / one corrupted byte); non-trivial = at least one element was read; distinct = distinct scenario hash (single task: the schedule is the read segmentation, part of the scenario tape)",
-		Real: []string{"stanza.InitStream", "stanza.NextPacket / NextXmppToken", "every packet decoder and UnmarshalXML (message, presence, iq, error, node, stream features/error, SASL, stream management, handshake)", "encoding/xml"},
-		Stub: []string{"the byte source: an io.Reader returning tape-chosen chunks, EOF at the truncation point, one flipped/inserted/deleted byte", "expected packets come from the harness' own splitter + RawToken DOM (sim/xmltok.go), not from the library's parser"},
-		Run:  runC02,
+		ID:    "C02",
+		Rule:  "scenario = (a generated well-formed XMPP stream, rooted or in WebSocket framing: header + 1-40 top-level elements of every kind NextPacket dispatches on, with random attributes and descendant trees incl. registered extensions, unknown-namespace subtrees, known child names inside unknown parents, depth up to 12, descendants named like the stanza, unknown top-level elements, optional stream end) x (read segmentation: whole / random chunks / byte by byte) x (fault: none / truncation at a byte offset / one corrupted byte); non-trivial = at least one element was read; distinct = distinct scenario hash (single task: the schedule is the read segmentation, part of the scenario tape)",
+		Real:  []string{"stanza.InitStream", "stanza.NextPacket / NextXmppToken", "every packet decoder and UnmarshalXML (message, presence, iq, error, node, stream features/error, SASL, stream management, handshake)", "encoding/xml"},
+		Stub:  []string{"the byte source: an io.Reader returning tape-chosen chunks, EOF at the truncation point, one flipped/inserted/deleted byte", "expected packets come from the harness' own splitter + RawToken DOM (sim/xmltok.go), not from the library's parser"},
+		Reach: []string{"c02.websocket_framing", "c02.long_stream"},
+		Run:   runC02,
 	})
 }
 
@@ -371,6 +374,40 @@ func c02Top(g G, i int, compNS bool) string {
 	}
 }
 
+// c02SelfContained makes a top-level element carry the namespace declarations it took from the
+// stream header, as it must under WebSocket framing.
+func c02SelfContained(top string) string {
+	k := strings.IndexAny(top, " />")
+	end := strings.Index(top, ">")
+	if k < 0 || end < 0 {
+		return top
+	}
+	decl := ""
+	if !strings.Contains(top[:end], " xmlns='") {
+		decl += " xmlns='" + nsClient + "'"
+	}
+	if strings.HasPrefix(top, "<stream:") {
+		decl += " xmlns:stream='" + nsStream + "'"
+	}
+	return top[:k] + decl + top[k:]
+}
+
+func splitAllFramed(b []byte) ([]*Item, error) {
+	s := NewSplitter(bytes.NewReader(b))
+	s.Framed = true
+	var out []*Item
+	for {
+		it, err := s.Next()
+		if err != nil {
+			if err == io.EOF {
+				return out, nil
+			}
+			return out, err
+		}
+		out = append(out, it)
+	}
+}
+
 // --- expectation (from the harness' own tokenizer) ---------------------------
 
 func c02Expect(el *Elem) (goType string, known bool) {
@@ -498,8 +535,14 @@ func runC02(e *Engine, g G, o RunOpt) RunInfo {
 	if sc.Component {
 		defNS = nsComponent
 	}
+	// RFC 7395 framing, as the WebSocket transport feeds it to the same decoder: no root element, the
+	// stream is opened by a self-closing <open/> and every top-level element declares its own namespaces
+	sc.Framed = !sc.Component && g.Pct("framed", 12)
 	var b strings.Builder
 	hdr := fmt.Sprintf("<?xml version='1.0'?><stream:stream id='sid' from='h' xmlns='%s' xmlns:stream='%s' version='1.0'>", defNS, nsStream)
+	if sc.Framed {
+		hdr = "<open xmlns='" + nsFraming + "' from='h' id='sid' version='1.0'" + []string{"/>", "></open>", " />"}[g.N("openform", 3)]
+	}
 	b.WriteString(hdr)
 	n := g.Range("nel", 1, 12)
 	if g.Pct("long", 15) {
@@ -509,10 +552,18 @@ func runC02(e *Engine, g G, o RunOpt) RunInfo {
 		if g.Pct("ws", 15) {
 			b.WriteString([]string{"\n", " ", "\n\t "}[g.N("wsk", 3)])
 		}
-		b.WriteString(c02Top(g, i+1, sc.Component))
+		top := c02Top(g, i+1, sc.Component)
+		if sc.Framed {
+			top = c02SelfContained(top)
+		}
+		b.WriteString(top)
 	}
 	if g.Pct("close", 40) {
-		b.WriteString("</stream:stream>")
+		if sc.Framed {
+			b.WriteString("<close xmlns='" + nsFraming + "'/>")
+		} else {
+			b.WriteString("</stream:stream>")
+		}
 	}
 	full := []byte(b.String())
 	sc.Elements = n
@@ -566,6 +617,13 @@ func runC02(e *Engine, g G, o RunOpt) RunInfo {
 
 	// expectation from the independent splitter, on the unfaulted stream
 	items, serr := SplitAll(full)
+	if sc.Framed {
+		items, serr = splitAllFramed(full)
+		if serr == nil {
+			items = items[1:] // <open/> is what InitStream consumes
+		}
+		e.Probe("c02.websocket_framing")
+	}
 	if serr != nil {
 		panic(fmt.Sprintf("generator produced a stream the harness cannot split: %v\n%s", serr, full))
 	}
